@@ -27,11 +27,11 @@ REPLAYS = os.environ.get("VK_REPLAYS", os.path.join(ROOT, "replays"))
 KNOWN = os.path.join(ROOT, "KNOWN_FINDINGS.txt")
 BUILD = os.environ.get("VK_BUILD") or os.path.join(ROOT, ".build", "run-%d" % os.getpid())   # per process: checks may run concurrently
 XSIM_PROPS = {"C01", "C07", "C08", "C09", "C10", "C11", "C18"}
-XREG_PROPS = {"C06", "C11"}
+XREG_PROPS = {"C06", "C11", "C16"}
 EXTRA_STANDINS = {
     "xreg": {"props": XREG_PROPS, "short": "real registration + report text, every model hierarchy up to the bound",
              "unit_of_count": "hierarchies", "scenario_word": "model hierarchy",
-             "what": "contracts/xreg.rs: real text of simulation::add_model, BuildContext, SimInit::add_model, Simulation::{new,run} cut from /repo with no rewrite rule, compiled against executable stubs, run on every model hierarchy up to the bound. LABELLED BOUNDED: not part of obligations/discharged."},
+             "what": "contracts/xreg.rs: real text of simulation::add_model (with its real async model task), BuildContext, SimInit::{add_model,init}, Simulation::{new,run} cut from /repo with no rewrite rule, compiled against executable stubs, run on every model hierarchy up to the bound. LABELLED BOUNDED: not part of obligations/discharged."},
     "xsched": {"props": {"C08", "C09", "C10"}, "short": "real text of the scheduling requests and action kinds, every request up to the bound",
                "unit_of_count": "requests", "scenario_word": "request",
                "what": "contracts/xsched.rs: real text of GlobalScheduler::{time, schedule_from, schedule_*_event_from}, ActionKey, Action, ActionInner and its periodic/keyed impls, process_event, send_keyed_event, InputFn and util/priority_queue.rs cut from /repo with no rewrite rule, compiled against executable stubs (a Sender that delivers at once); every request up to the bound compared with the statements of C08/C09/C10. LABELLED BOUNDED: not part of obligations/discharged."},
